@@ -27,10 +27,12 @@ package h_c12
 import (
 	"context"
 	"encoding/base64"
+	"bytes"
 	"encoding/json"
 	"fmt"
 	"io"
 	"os"
+	"os/exec"
 	"regexp"
 	"runtime"
 	"runtime/debug"
@@ -74,7 +76,7 @@ var c12DimSize = [c12nDims]int{3, 3, 5, 5, 4, 2, 3, 2, 2, 2}
 var c12DimName = [c12nDims]string{"m", "p", "ct", "to", "au", "conn", "bin", "es", "te", "ord"}
 var c12DimVals = [c12nDims][]string{
 	{"POST", "GET", "none"},
-	{"/s/st", "/s/u", "/x/y"},
+	{"/s/st", "/s/u", "/x/y", "/s/echo"}, // /s/echo only in part C
 	{"application/grpc", "application/grpc+proto", "text/html", "none", "application/grpcx"},
 	{"none", "1S", "x", "empty", "123456789S"},
 	{"one", "dup:authority", ":authority+host", "2xhost"},
@@ -89,7 +91,9 @@ type c12Hdr [c12nDims]int
 
 // c12Ev is one client event.
 type c12Ev struct {
-	K  string `json:"k"` // hdr data rst settings setack wu ping unk garbage trunc close rel tick
+	K  string `json:"k"` // hdr data rst settings settings0 setack wu ping unk garbage trunc close rel tick
+	// N: data: 0 = one gRPC message "x" (6 bytes), -1 = empty payload, n>0 = n zero bytes;
+	// wu: window increment; ping: count
 	ID uint32 `json:"id,omitempty"`
 	H  c12Hdr `json:"h"`
 	ES bool   `json:"es,omitempty"`
@@ -107,14 +111,20 @@ func (e c12Ev) String() string {
 		}
 		return fmt.Sprintf("H%d[%s]", e.ID, strings.Join(ds, ","))
 	case "data":
-		if e.ES {
-			return fmt.Sprintf("D%d+es", e.ID)
+		n := ""
+		if e.N == -1 {
+			n = "(0)"
+		} else if e.N > 0 {
+			n = fmt.Sprintf("(%d)", e.N)
 		}
-		return fmt.Sprintf("D%d", e.ID)
+		if e.ES {
+			return fmt.Sprintf("D%d%s+es", e.ID, n)
+		}
+		return fmt.Sprintf("D%d%s", e.ID, n)
 	case "rst":
 		return fmt.Sprintf("R%d", e.ID)
 	case "wu":
-		return fmt.Sprintf("WU%d+0", e.ID)
+		return fmt.Sprintf("WU%d+%d", e.ID, e.N)
 	case "ping":
 		return fmt.Sprintf("PINGx%d", e.N)
 	}
@@ -319,6 +329,15 @@ func (rc *c12Rec) stream(name string) grpc.StreamHandler {
 	}
 }
 
+// echo answers at once with one message and an OK status (part C: with a zero
+// client window the DATA and the trailers stay queued in the transport).
+func (rc *c12Rec) echo(_ any, ss grpc.ServerStream) error {
+	rc.enter(ss.Context(), "echo")
+	defer rc.exit()
+	ss.SendMsg([]byte("resp"))
+	return nil
+}
+
 func (rc *c12Rec) unary(_ any, ctx context.Context, dec func(any) error, _ grpc.UnaryServerInterceptor) (any, error) {
 	g := rc.enter(ctx, "unary")
 	defer rc.exit()
@@ -373,7 +392,10 @@ func (c12Codec) Unmarshal(data mem.BufferSlice, v any) error {
 
 // ---------------------------------------------------------------- one history
 
-type c12Fail struct{ Key, Desc string }
+type c12Fail struct {
+	Key  string `json:"key"`
+	Desc string `json:"desc"`
+}
 
 type c12Req struct {
 	ev       int
@@ -392,7 +414,12 @@ type c12Res struct {
 	faults   int
 	log      string
 	engine   string
+	crashed  bool
 }
+
+// c12Progress, when set, is told the index of every event before it is applied
+// (child processes report it so that a crash is attributed to an event).
+var c12Progress func(i int)
 
 type c12Replay struct {
 	MCS    int     `json:"mcs"`
@@ -418,7 +445,8 @@ func c12Run(t *testing.T, mcs int, hist []c12Ev, verbose bool) (res c12Res) {
 			ServiceName: "s",
 			HandlerType: (*any)(nil),
 			Methods:     []grpc.MethodDesc{{MethodName: "u", Handler: rc.unary}},
-			Streams:     []grpc.StreamDesc{{StreamName: "st", Handler: rc.stream("stream"), ServerStreams: true, ClientStreams: true}},
+			Streams: []grpc.StreamDesc{{StreamName: "st", Handler: rc.stream("stream"), ServerStreams: true, ClientStreams: true},
+				{StreamName: "echo", Handler: rc.echo, ServerStreams: true, ClientStreams: true}},
 		}, rc)
 		lis := wire.NewListener()
 		served := make(chan error, 1)
@@ -502,6 +530,9 @@ func c12Run(t *testing.T, mcs int, hist []c12Ev, verbose bool) (res c12Res) {
 			if dead || res.engine != "" {
 				break
 			}
+			if c12Progress != nil {
+				c12Progress(i)
+			}
 			var rq *c12Req
 			atCap := false
 			switch ev.K {
@@ -536,19 +567,30 @@ func c12Run(t *testing.T, mcs int, hist []c12Ev, verbose bool) (res c12Res) {
 				}
 				peer.WriteHeaders(ev.ID, fields, ev.H[c12dES] == 1)
 			case "data":
-				peer.WriteData(ev.ID, ev.ES, wire.GrpcMsg(false, []byte("x")))
+				switch {
+				case ev.N == -1:
+					peer.WriteData(ev.ID, ev.ES, nil)
+				case ev.N > 0:
+					peer.WriteData(ev.ID, ev.ES, make([]byte, ev.N)) // 5 zero bytes = an empty gRPC message
+				default:
+					peer.WriteData(ev.ID, ev.ES, wire.GrpcMsg(false, []byte("x")))
+				}
 			case "rst":
 				res.faults++
 				peer.WriteRST(ev.ID, http2.ErrCodeCancel)
 				delete(open, ev.ID)
 			case "settings":
 				peer.WriteSettings(http2.Setting{ID: http2.SettingInitialWindowSize, Val: 1 << 20})
+			case "settings0": // the client shrinks its stream windows to 0: responses stay queued
+				peer.WriteSettings(http2.Setting{ID: http2.SettingInitialWindowSize, Val: 0})
 			case "setack":
 				res.faults++
 				peer.WriteSettingsAck()
 			case "wu":
-				res.faults++
-				peer.WriteWindowUpdate(ev.ID, 0)
+				if ev.N == 0 {
+					res.faults++
+				}
+				peer.WriteWindowUpdate(ev.ID, uint32(ev.N))
 			case "ping":
 				res.faults++
 				for k := 0; k < ev.N; k++ {
@@ -751,13 +793,136 @@ func (c *c12Crash) pending(mcs int, hist []c12Ev) {
 		return
 	}
 	hs := c12HistString(mcs, hist)
-	v := vk.Violation{Property: c12P, Key: "worker-died/" + hs,
+	key, _ := c12PanicKey(hist, len(hist)-1)
+	v := vk.Violation{Property: c12P, Key: key,
 		Desc:   "the worker process died (panic in a server goroutine, fatal error or bubble deadlock) or was killed while running this history: " + hs,
 		Replay: c12Replay{MCS: mcs, Events: hist, Hist: hs}}
 	out := map[string]any{"leg": c.r.Leg, "shard": c.shard, "nshards": c.n, "tier": c.r.Tier(), "seed": c.r.Seed(),
 		"props": map[string]any{}, "violations": append(append([]vk.Violation(nil), c.prev...), v), "engine_errors": []string{}, "wall_s": 0, "complete": false}
 	b, _ := json.Marshal(out)
 	os.WriteFile(c.path, b, 0o644)
+}
+
+// c12PanicKey names a server crash: the canonical event sequence up to the
+// event during which the process died, or the name of the defect class when
+// the sequence matches a known shape.
+func c12PanicKey(hist []c12Ev, last int) (key, canon string) {
+	if last >= len(hist) {
+		last = len(hist) - 1
+	}
+	var ss []string
+	blocked := false // settings0 seen, no stream-level window opened since
+	esCount := map[uint32]int{}
+	double := false
+	for _, e := range hist[:last+1] {
+		ss = append(ss, e.String())
+		switch e.K {
+		case "settings0":
+			blocked = true
+		case "settings":
+			blocked = false
+		case "wu":
+			if e.N > 0 && e.ID != 0 {
+				blocked = false
+			}
+		case "rst":
+			delete(esCount, e.ID)
+		case "data":
+			if e.ES && blocked {
+				esCount[e.ID]++
+				if esCount[e.ID] >= 2 {
+					double = true
+				}
+			}
+		}
+	}
+	canon = strings.Join(ss, " ")
+	if double {
+		return "server-panic/double-END_STREAM-while-response-flow-control-blocked", canon
+	}
+	return "server-panic/" + canon, canon
+}
+
+// ---------------------------------------------------------------- child processes (part C)
+
+type c12ChildOut struct {
+	Fails    []c12Fail `json:"fails"`
+	Outcomes []string  `json:"outcomes"`
+	Rejects  int       `json:"rejects"`
+	Invoked  int       `json:"invoked"`
+	Faults   int       `json:"faults"`
+	TermAt   int       `json:"term_at"`
+	Engine   string    `json:"engine"`
+}
+
+// TestVerif_C12_Child runs ONE history given in VERIF_C12_CHILD and reports on
+// stdout; it is a no-op otherwise. The parent explores part C through it so
+// that a server panic kills only the child and is attributed to an event.
+func TestVerif_C12_Child(t *testing.T) {
+	spec := os.Getenv("VERIF_C12_CHILD")
+	if spec == "" {
+		return
+	}
+	grpclog.SetLoggerV2(grpclog.NewLoggerV2(io.Discard, io.Discard, io.Discard))
+	var rp c12Replay
+	if err := json.Unmarshal([]byte(spec), &rp); err != nil {
+		fmt.Printf("@res {\"engine\":%q}\n", "child spec: "+err.Error())
+		return
+	}
+	c12Progress = func(i int) { fmt.Printf("@ev %d\n", i) }
+	res := c12Run(t, rp.MCS, rp.Events, false)
+	b, _ := json.Marshal(c12ChildOut{Fails: res.fails, Outcomes: res.outcomes, Rejects: res.rejects, Invoked: res.invoked, Faults: res.faults, TermAt: res.termAt, Engine: res.engine})
+	fmt.Printf("@res %s\n", b)
+}
+
+// c12RunChild runs one history in a child process of this test binary.
+func c12RunChild(mcs int, hist []c12Ev) (res c12Res) {
+	res.termAt = -1
+	spec, _ := json.Marshal(c12Replay{MCS: mcs, Events: hist})
+	ctx, cancel := context.WithTimeout(context.Background(), 120*time.Second)
+	defer cancel()
+	cmd := exec.CommandContext(ctx, os.Args[0], "-test.run", "^TestVerif_C12_Child$", "-test.count=1", "-test.timeout=100s")
+	cmd.Env = append(os.Environ(), "VERIF_C12_CHILD="+string(spec), "VERIF_OUT=", "VERIF_REPLAY=")
+	var stdout, stderr bytes.Buffer
+	cmd.Stdout, cmd.Stderr = &stdout, &stderr
+	err := cmd.Run()
+	last := -1
+	for _, ln := range strings.Split(stdout.String(), "\n") {
+		switch {
+		case strings.HasPrefix(ln, "@ev "):
+			fmt.Sscanf(ln, "@ev %d", &last)
+		case strings.HasPrefix(ln, "@res "):
+			var out c12ChildOut
+			if e := json.Unmarshal([]byte(ln[5:]), &out); e != nil {
+				res.engine = "child result: " + e.Error()
+				return res
+			}
+			res.fails, res.outcomes, res.rejects, res.invoked, res.faults, res.termAt, res.engine = out.Fails, out.Outcomes, out.Rejects, out.Invoked, out.Faults, out.TermAt, out.Engine
+			return res
+		}
+	}
+	// no result line: the child died
+	msg := stderr.String() + stdout.String()
+	if i := strings.Index(msg, "panic:"); i >= 0 {
+		msg = msg[i:]
+	} else if i := strings.Index(msg, "fatal error:"); i >= 0 {
+		msg = msg[i:]
+	}
+	if len(msg) > 1800 {
+		msg = msg[:1800] + "…"
+	}
+	if last < 0 {
+		res.engine = fmt.Sprintf("child died before the first event (%v): %s", err, msg)
+		return res
+	}
+	key, canon := c12PanicKey(hist, last)
+	what := "died"
+	if ctx.Err() != nil {
+		what = "hung (killed after 120 s)"
+	}
+	res.fails = append(res.fails, c12Fail{key, fmt.Sprintf("the server process %s during event %d (%s) of [%s] (%v): %s", what, last, hist[last].String(), canon, err, msg)})
+	res.crashed = true
+	return res
 }
 
 // ---------------------------------------------------------------- enumeration
@@ -820,7 +985,7 @@ func TestVerif_C12_BadClient(t *testing.T) {
 	defer debug.SetGCPercent(debug.SetGCPercent(800)) // one server per bubble: mostly short-lived garbage
 	r := vk.Start(t, "c12_badclient", "fault_enumeration", c12P)
 	defer r.Finish()
-	r.Rule(c12P, "Part A: every sequence of client events of length <= L over the alphabet {HEADERS on stream id in {0,1,2,3,5} with every header variant deviating from a well-formed request in <= 1 dimension (:method, :path, content-type, grpc-timeout, authority/host multiplicity, connection, -bin metadata, END_STREAM, te, field order); DATA on streams 1,3 (with/without END_STREAM) and 7; RST_STREAM 1,3; release handlers; 2 s of virtual time; SETTINGS; unsolicited SETTINGS ack; WINDOW_UPDATE +0 on stream 0 and 1; 1 or 3 PINGs; unknown frame type; 16 bytes 0xff; truncated frame; close} after preface+SETTINGS, for MaxConcurrentStreams 1 and 2; a history ends early when the server closed the connection. Part A2 (thorough): the same with <= 2 deviations per HEADERS and length 2. Part B: k in {0, MaxConcurrentStreams} open valid streams, then one HEADERS from the cross product of the header dimensions. One bubble per history on a real grpc.Server, run to quiescence after every event. Non-trivial: the history contains a request the reference admission forbids, or a non-HEADERS fault event; counted once per distinct history.")
+	r.Rule(c12P, "Part A: every sequence of client events of length <= L over the alphabet {HEADERS on stream id in {0,1,2,3,5} with every header variant deviating from a well-formed request in <= 1 dimension (:method, :path, content-type, grpc-timeout, authority/host multiplicity, connection, -bin metadata, END_STREAM, te, field order); DATA on streams 1,3 (with/without END_STREAM) and 7; RST_STREAM 1,3; release handlers; 2 s of virtual time; SETTINGS; unsolicited SETTINGS ack; WINDOW_UPDATE +0 on stream 0 and 1; 1 or 3 PINGs; unknown frame type; 16 bytes 0xff; truncated frame; close} after preface+SETTINGS, for MaxConcurrentStreams 1 and 2; a history ends early when the server closed the connection. Part A2 (thorough): the same with <= 2 deviations per HEADERS and length 2. Part B: k in {0, MaxConcurrentStreams} open valid streams, then one HEADERS from the cross product of the header dimensions. Part C: the client sets INITIAL_WINDOW_SIZE=0, opens stream 1 to a handler that answers at once with one message and OK (DATA and trailers stay queued behind flow control, the stream stays active), then every sequence of <= 3 (quick) / 4 (thorough) frames from {DATA(0)+END_STREAM, DATA(0), DATA(5)+END_STREAM, RST_STREAM, WINDOW_UPDATE +64} on that stream; each part C history runs in a child process so that a server panic is attributed to the event that caused it. One bubble per history on a real grpc.Server, run to quiescence after every event. Non-trivial: the history contains a request the reference admission forbids, or a non-HEADERS fault event; counted once per distinct history.")
 	r.Assume(c12P, "testing/synctest quiescence detection; the raw peer's x/net/http2 framer+hpack encoder; handlers return when released or when their context is cancelled; the client acknowledges SETTINGS and PING; header values are attributed to requests through the x-req metadata field")
 	r.Assume(c12P, "the statement is silent about a `connection` header: such requests are enumerated but neither outcome is checked (class 'unspecified')")
 
@@ -829,9 +994,18 @@ func TestVerif_C12_BadClient(t *testing.T) {
 	var nEval, nNontriv int64
 	sampled := 0
 
+	child := false // part C runs every history in a child process
 	runOne := func(mcs int, hist []c12Ev, count bool) c12Res {
-		crash.pending(mcs, hist)
-		res := c12Run(t, mcs, hist, false)
+		var res c12Res
+		if child {
+			res = c12RunChild(mcs, hist)
+			if res.crashed {
+				r.AddInt(c12P, "C_server_crashes", 1)
+			}
+		} else {
+			crash.pending(mcs, hist)
+			res = c12Run(t, mcs, hist, false)
+		}
 		if res.engine != "" {
 			r.EngineError("%s: %s", c12HistString(mcs, hist), res.engine)
 		}
@@ -873,8 +1047,12 @@ func TestVerif_C12_BadClient(t *testing.T) {
 			r.EngineError("replay: %v", err)
 			return
 		}
-		res := c12Run(t, rp.MCS, rp.Events, true)
-		fmt.Printf("[c12 replay] %s\n  outcomes=%v\n  server frames: %s\n", c12HistString(rp.MCS, rp.Events), res.outcomes, res.log)
+		// first in a child process (a server panic must not kill the replay), then, if it survived, in-process for the frame log
+		res := c12RunChild(rp.MCS, rp.Events)
+		if !res.crashed && res.engine == "" {
+			res = c12Run(t, rp.MCS, rp.Events, true)
+		}
+		fmt.Printf("[c12 replay] %s\n  crashed=%v outcomes=%v\n  server frames: %s\n", c12HistString(rp.MCS, rp.Events), res.crashed, res.outcomes, res.log)
 		for _, f := range res.fails {
 			r.Violation(c12P, f.Key, f.Desc, rp)
 		}
@@ -951,6 +1129,42 @@ func TestVerif_C12_BadClient(t *testing.T) {
 				}
 				hist = append(hist, c12Ev{K: "hdr", ID: uint32(2*k + 1), H: h})
 				runOne(mcs, hist, true)
+			}
+		}
+	}
+
+	// Part C: the client's stream window is 0, so the answer of the echo handler
+	// (one message, OK) stays queued; then every sequence of <= LC frames on that stream
+	child = true
+	tail := []c12Ev{{K: "data", ID: 1, N: -1, ES: true}, {K: "data", ID: 1, N: -1}, {K: "data", ID: 1, N: 5, ES: true}, {K: "rst", ID: 1}, {K: "wu", ID: 1, N: 64}}
+	LC := r.Pick(3, 4)
+	r.Set(c12P, "C_depth_bound", LC)
+	var echo c12Hdr
+	echo[c12dPath] = 3
+	for _, mcs := range mcsList {
+		for L := 1; L <= LC; L++ {
+			idx := make([]int, L)
+			for {
+				item++
+				if r.Mine(item) && !over() {
+					hist := []c12Ev{{K: "settings0"}, {K: "hdr", ID: 1, H: echo}}
+					for _, x := range idx {
+						hist = append(hist, tail[x])
+					}
+					runOne(mcs, hist, true)
+				}
+				p := L - 1
+				for p >= 0 {
+					idx[p]++
+					if idx[p] < len(tail) {
+						break
+					}
+					idx[p] = 0
+					p--
+				}
+				if p < 0 {
+					break
+				}
 			}
 		}
 	}
